@@ -1,7 +1,7 @@
 """Rules on the AST builder's normal form (C03, C04.items, C08.ast, C11 builder side, C12.rect, C13.ast, C17 shapes)."""
 from __future__ import annotations
 
-from ..absint import new_interp, Interp, HList, HDict, HInst, NONE, const, is_const, fmt, fmt_seg, mk_not
+from ..absint import new_interp, Interp, HList, HDict, HInst, NONE, const, is_const, fmt, fmt_seg, mk_not, mk_cmp, mk_cond
 from ..berp import grammar
 from ..names import N
 from ..common import AnalysisError, Report
@@ -323,18 +323,30 @@ def rule_rw(rep: Report, rid="C03.rw", rid_flow="C03.flow") -> None:
                 rep.ob(rid_flow, f"{what}{via} reaches the value the branch returns", flow_ok, **_kw(b, br.line),
                        expected="child flows into the returned node", found=sorted(rr) or "read but not part of the result")
         # a branch gives up (returns None) only when a child it needs is absent, and produces its node whenever they are present
-        def presence(c):
-            cc = b.c(c)
+        def presence_atom(a_):
+            cc = b.c(a_)
             return cc[0] in ("single", "first", "items") and _owner_rule(b, cc[1], p) is not None
         for v, line, gs in br.returns:
+            atoms = []
+            for c, _pol in gs:
+                nf._test_atoms(c, atoms)
+            shown = [(fmt(b.c(c), b.I)[:120], pol) for c, pol in gs]
+            if not all(presence_atom(a_) for a_ in atoms):
+                rep.ob(rid, f"{p}: whether the node is produced depends only on which children are present", False, **_kw(b, line),
+                       expected="tests of node.get_single/get_token/get_items results only", found=shown)
+                continue
+            all_present = {a_: True for a_ in atoms}
+            try:
+                reached = all(nf.eval_test(c, all_present) == pol for c, pol in gs)
+            except KeyError:
+                reached = None
             if is_const(v, None):
-                ok = any(presence(c) and pol is False for c, pol in gs)
-                rep.ob(rid, f"{p}: the node is dropped (None) only when a child it needs is missing", ok, **_kw(b, line),
-                       expected="return None under 'not <child>'", found=[(fmt(b.c(c), b.I), pol) for c, pol in gs])
+                # with every child present this path is not taken: None only when something is missing
+                rep.ob(rid, f"{p}: the node is dropped (None) only when a child it needs is missing", reached is False, **_kw(b, line),
+                       expected="return None under 'not <child>'", found=shown)
             else:
-                ok = all(presence(c) and pol is True for c, pol in gs)
-                rep.ob(rid, f"{p}: the node is produced whenever the children it needs are present", ok, **_kw(b, line),
-                       expected="no condition other than 'child present'", found=[(fmt(b.c(c), b.I), pol) for c, pol in gs])
+                rep.ob(rid, f"{p}: the node is produced whenever the children it needs are present", reached is True, **_kw(b, line),
+                       expected="no condition other than 'child present'", found=shown)
         # reads of kinds the parser never puts there
         for (owner, k), modes in sorted(reads.items(), key=str):
             r = _owner_rule(b, owner, p)
@@ -715,7 +727,7 @@ def rule_docstring_ast(rep: Report, rid="C13.ast") -> None:
     rep.ob(rid, "docString.content = the content lines joined by line feeds, all of them, in order", ok, **kw,
            expected="'\\n'.join(t.matched_text for t in node.get_tokens('Other'))", found=fmt(c, I) if c else "missing")
     mt = ("attr", sep, "matched_text")
-    want_forms = [("cond", ("cmp", "Gt", ("call", "len", (mt,), ()), const(0)), mt, NONE), ("cond", mt, mt, NONE)]
+    want_forms = [mk_cond(mk_cmp("Gt", ("call", "len", (mt,), ()), const(0)), mt, NONE), ("cond", mt, mt, NONE)]
     rep.ob(rid, "docString.mediaType = text after the opening delimiter, absent when empty", get("mediaType") in want_forms, **kw,
            expected=fmt(want_forms[0], I), found=fmt(get("mediaType"), I) if get("mediaType") else "missing")
     rep.eq(rid, "docString.delimiter = the opening delimiter", fmt(("attr", sep, "matched_keyword"), I), fmt(get("delimiter"), I) if get("delimiter") else None, **kw)
